@@ -55,7 +55,7 @@ fn token_record(case: i64, kind: &str, mode: &str, input: &[u8], toks: Option<Va
         "units":Value::Array(us.iter().map(|u| bytes_json(u)).collect()),"valid":valid})
 }
 
-fn emit_tokens(input: &[u8], out: &mut Out) {
+pub fn emit_tokens(input: &[u8], out: &mut Out) {
     let as_str = std::str::from_utf8(input).ok();
     for kind in KINDS {
         if !has_unicode() && (kind == "uwords" || kind == "graphemes") {
